@@ -15,9 +15,9 @@ import traceback
 
 VERIF = os.path.dirname(os.path.dirname(os.path.abspath(__file__)))
 REPO = os.environ.get("VERIF_REPO", "/repo")
-EVIDENCE_DIR = os.path.join(VERIF, "evidence")
+EVIDENCE_DIR = os.environ.get("VERIF_EVIDENCE_DIR") or os.path.join(VERIF, "evidence")
 REPLAY_DIR = os.path.join(VERIF, "out", "replays")
-KNOWN_FILE = os.path.join(VERIF, "KNOWN_FINDINGS.jsonl")
+KNOWN_FILE = os.environ.get("VERIF_KNOWN_FILE") or os.path.join(VERIF, "KNOWN_FINDINGS.jsonl")
 
 PROVED, REFUTED, UNKNOWN = "proved", "refuted", "unknown"
 
